@@ -65,21 +65,23 @@ type ChainCfg struct {
 }
 
 type ChainReq struct {
-	ID        int    `json:"id"`
-	Target    string `json:"target"` // route | post | notfound | badmethod | notacceptable | unsupported | plain | plainf | muxnotfound
-	AE        string `json:"accept_encoding,omitempty"`
-	PreCE     string `json:"writer_content_encoding,omitempty"`
-	N         int    `json:"payload"`
-	Chunks    []int  `json:"chunks,omitempty"`
-	PanicAt   string `json:"panic_at,omitempty"`
-	Flush     bool   `json:"flush,omitempty"`
-	Early     bool   `json:"early_close,omitempty"`
-	AddSvc    bool   `json:"add_service_afterwards,omitempty"`
-	WFail     int    `json:"client_gone_at_write,omitempty"`             // k>0: the client's writer fails from underlying write #k-1 on
-	BodyGzip  bool   `json:"gzip_request_body,omitempty"`                // post target: the entity is sent gzip-coded and read with ReadEntity
-	PanicKind int    `json:"panic_value_kind,omitempty"`                 // 0 string, 1 error, 2 pointer to a struct implementing error, 3 struct with String, 4 runtime error (nil map)
-	CancelAt  string `json:"context_cancelled_at,omitempty"`             // "start" or a point of the chain: the client went away, the request's context is done from there on
-	AddCE     bool   `json:"handler_adds_content_encoding_br,omitempty"` // the route function declares its own payload br-coded: Header().Add, a layered coding
+	ID         int    `json:"id"`
+	Target     string `json:"target"` // route | post | notfound | badmethod | notacceptable | unsupported | plain | plainf | muxnotfound
+	AE         string `json:"accept_encoding,omitempty"`
+	PreCE      string `json:"writer_content_encoding,omitempty"`
+	N          int    `json:"payload"`
+	Chunks     []int  `json:"chunks,omitempty"`
+	PanicAt    string `json:"panic_at,omitempty"`
+	Flush      bool   `json:"flush,omitempty"`
+	Early      bool   `json:"early_close,omitempty"`
+	AddSvc     bool   `json:"add_service_afterwards,omitempty"`
+	WFail      int    `json:"client_gone_at_write,omitempty"` // k>0: the client's writer fails from underlying write #k-1 on
+	BodyGzip   bool   `json:"gzip_request_body,omitempty"`    // post target: the entity is sent gzip-coded and read with ReadEntity
+	PanicKind  int    `json:"panic_value_kind,omitempty"`     // 0 string, 1 error, 2 pointer to a struct implementing error, 3 struct with String, 4 runtime error (nil map)
+	CancelAt   string `json:"context_cancelled_at,omitempty"` // "start" or a point of the chain: the client went away, the request's context is done from there on
+	NoStore    bool   `json:"handler_sets_cache_control_no_store,omitempty"`
+	FlushFirst bool   `json:"handler_flushes_before_first_write,omitempty"` // the streaming pattern: commit the header, then write
+	AddCE      bool   `json:"handler_adds_content_encoding_br,omitempty"`   // the route function declares its own payload br-coded: Header().Add, a layered coding
 
 	payload []byte
 	res     [2]*ChainRes // 0: simulated run, 1: sequential twin
@@ -368,6 +370,12 @@ func (e *chainEnv) routeFunc(req *restful.Request, resp *restful.Response) {
 	e.crash("handler:before")
 	if r.AddCE {
 		resp.AddHeader("Content-Encoding", "br")
+	}
+	if r.NoStore {
+		resp.AddHeader("Cache-Control", "no-store")
+	}
+	if r.FlushFirst {
+		resp.Flush()
 	}
 	e.writeChunks(resp, r, resp.Flush)
 	if r.Early {
@@ -909,6 +917,10 @@ func genChainReq(tp *sim.Tape, cfg *ChainCfg, k chainKnobs, id int) *ChainReq {
 	}
 	if r.Target == "post" && k.encoding {
 		r.BodyGzip = tp.Bool()
+	}
+	if k.encoding && isRouted(r.Target) {
+		r.NoStore = tp.Chance(80)
+		r.FlushFirst = cfg.Flusher && tp.Chance(120)
 	}
 	if k.addCE && isRouted(r.Target) && r.PanicAt == "" && tp.Chance(50) {
 		r.AddCE = true
